@@ -775,6 +775,24 @@ func main() {
 			check(c, orb.Collection{orb.Collection{b}, b})
 		}
 	})
+	// nil members: a collection may hold nil geometries (orb.AllGeometries starts with one); they count for nothing,
+	// wherever they stand in the list
+	nilMenu := func() []orb.Collection { // fresh values for every execution: some entry points work in place
+		return []orb.Collection{
+			{orb.Point{1, 1}, nil}, {nil, orb.Point{1, 1}}, {nil, orb.Point{1, 1}, nil, orb.LineString{{0, 0}, {2, 2}}}, {nil}, {nil, nil},
+			{orb.Collection{orb.Point{1, 1}, nil}, orb.Polygon{{{0, 0}, {2, 0}, {2, 2}, {0, 0}}}}, {orb.Polygon{{{0, 0}, {2, 0}, {2, 2}, {0, 0}}}, nil, orb.Collection{nil}},
+		}
+	}
+	r.Explore("nil-members", fmt.Sprintf("%d collections with nil members (first, last, between, only, nested) x every registered entry point: no panic", len(nilMenu())), mc.Opts{MaxDev: -1}, func(c *mc.Ctx) {
+		menu := nilMenu()
+		g := menu[c.Choose(len(menu))]
+		e := reg[c.Choose(len(reg))]
+		arg := g
+		if _, pan := try(func() interface{} { return e.call(arg) }); pan != "" {
+			c.Failf("panic:"+short(e.name)+":nil-member", "%s(%v) panicked: %s", short(e.name), nilMenu()[c.Trail()[0]], pan)
+		}
+		c.NonTrivial()
+	})
 	// the one entry point that takes two geometries: every ordered pair of kinds (three kinds - ring, polygon, bound -
 	// share the GeoJSON type "Polygon", so a dispatch on that name alone meets a value of another Go type)
 	sq := orb.Ring{{0, 0}, {2, 0}, {2, 2}, {0, 2}, {0, 0}}
